@@ -1535,6 +1535,9 @@ def elem_iter(interp, v: ElemV, node):
     if v.role in ("set", "coll", "layer"):
         b = interp.fresh_var("m")
         role = v.fam if isinstance(v.fam, str) else "plain"
+        if role in ("set", "coll", "layer"):
+            # a collection of collections: the inner member role travels in ``cls``
+            return [("each", b, ("members", v.var), PTRUE, ElemV(b, role, v.cls or "plain", ""))]
         return [("each", b, ("members", v.var), PTRUE, ElemV(b, role, None, v.cls))]
     if v.role == "partition":
         b = interp.fresh_var("L")
@@ -1586,6 +1589,9 @@ def unpack_value(interp, v, n, node):
 
 
 def elem_method(interp, v: ElemV, name, args, kwargs, node):
+    h = interp.method_hooks.get((v.role, name))
+    if h is not None:
+        return h(interp, v, args, kwargs, node)
     if v.role in ("set", "coll", "layer"):
         if name in ("issubset", "issuperset"):
             b = interp.as_coll(args[0]) if not isinstance(args[0], ElemV) else args[0]
